@@ -27,13 +27,15 @@ var c07Alpha = []*BatchSpec{
 	{Kids: kid("A", kv("y", "$"))},
 	{Ops: kv("big", c07Big).Ops, Kids: kid("A", kv("w", "$"))}, // a large first segment for the top level and a segment of A next to it
 	{Ops: kv("k1", "$").Ops, Kids: kid("A", kv("y", "$"))},     // recreation of A together with top-level data (no top-level data => full compaction)
+	{Ops: kv("k2", "$").Ops, Kids: kid("A", kv("w", "<del>"))}, // deletion of a key inside child A (its value may sit below the splice point)
 }
 
 // c07Rounds: what is executed between two persistence rounds (usually one batch; the last entry deletes child
 // collection A and recreates it with another key within the same round).
-// The last two rounds (big value + child A; A deleted and recreated next to a top-level write) are only used by the
+// The last three rounds (big value + child A; A deleted and recreated next to a top-level write; deletion of a key
+// inside A) are only used by the
 // child-collection family.
-var c07Rounds = [][]int{{0}, {1}, {2}, {3}, {4}, {5}, {6}, {7, 8}, {9}, {7, 10}}
+var c07Rounds = [][]int{{0}, {1}, {2}, {3}, {4}, {5}, {6}, {7, 8}, {9}, {7, 10}, {11}}
 
 const c07GeneralRounds = 8
 
@@ -289,9 +291,9 @@ func checkC07(prop, tier string) int {
 	// and recreated within one round; one key), so that a recreated child meets persisted segments of its predecessor
 	// below the splice point of a partial compaction
 	var childSeqs [][]int
-	childRounds, childAlpha := 5, []int{8, 5, 9, 0}
+	childRounds, childAlpha := 5, []int{8, 5, 9, 10, 0}
 	if tier == "thorough" {
-		childRounds, childAlpha = 7, []int{8, 5, 9, 7, 0}
+		childRounds, childAlpha = 6, []int{8, 5, 9, 10, 7, 0}
 	}
 	var genChild func(cur []int)
 	genChild = func(cur []int) {
@@ -380,7 +382,7 @@ func checkC07(prop, tier string) int {
 			"traces_validated_against_impl": tot.Seqs,
 			"evaluations":                   tot.Seqs,
 			"distinct_nontrivial":           len(tot.Splices),
-			"rule":                          "every sequence of R persistence rounds over an 8-round alphabet (1 key, 3 keys, a 5000-byte value, overwrite, delete+insert, child-collection write + delete, deletion of a never-set last key, child collection deleted and recreated within one round) x option points (concern, CompactionLevelMaxSegments, CompactionLevelMultiplier, CompactionPercentage, CompactionBufferPages, NoSync), plus, on the CompactionAllow option points, every sequence of R+1 (thorough R+2) rounds over the child-collection sub-alphabet (large value + child A written; child A written; A deleted and recreated within one round next to a top-level write; 1 key), on the real collection + store under the controlled scheduler; after every round: store snapshot == collection snapshot == reference; after a full compaction: <=1 segment per collection, no deletion markers, no duplicate keys; at the end: one data file. distinct_nontrivial = distinct (segments before -> after, compaction kind) transitions observed, i.e. the splice points exercised",
+			"rule":                          "every sequence of R persistence rounds over an 8-round alphabet (1 key, 3 keys, a 5000-byte value, overwrite, delete+insert, child-collection write + delete, deletion of a never-set last key, child collection deleted and recreated within one round) x option points (concern, CompactionLevelMaxSegments, CompactionLevelMultiplier, CompactionPercentage, CompactionBufferPages, NoSync), plus, on the CompactionAllow option points, every sequence of R+1 (thorough R+2) rounds over the child-collection sub-alphabet (large value + child A written; child A written; A deleted and recreated within one round next to a top-level write; a key of A deleted; 1 key), on the real collection + store under the controlled scheduler; after every round: store snapshot == collection snapshot == reference; after a full compaction: <=1 segment per collection, no deletion markers, no duplicate keys; at the end: one data file. distinct_nontrivial = distinct (segments before -> after, compaction kind) transitions observed, i.e. the splice points exercised",
 			"samples":                       samples,
 			"exhaustive":                    infra == 0 && skipped == 0,
 			"cap_hit":                       fmt.Sprintf("%d of %d jobs skipped by the deadline", skipped, len(jobs)),
